@@ -121,6 +121,7 @@ def judge_rx(sc, lines_in, impl_out):
 
 class C03(PropBase):
     id = 'C03'
+    rx_only_gaps = 0.1
     partial_passes = 0.25
     lean_modules = ['Isotp.Props.C03']
     theorems = []
